@@ -423,9 +423,59 @@ def function_variable_cases():
     return out
 
 
+def early_exit_same_name_cases(tier):
+    """a function leaves a nest of blocks early (return from 1-3 blocks deep; also break / continue out of them) while the
+    innermost block holds a variable `sq` of its own; afterwards the caller - at module level or in another function - reads and
+    updates ITS variable `sq` inside a nest of blocks of the same or another depth: the frames the callee abandoned are gone"""
+    import itertools
+    V = lambda n: ("var", n)
+    D = lambda n, e: ("decl", n, None, e, ())
+    KINDS = ["while", "if", "from", "else"]
+
+    def wrap(kinds, body, tag):
+        for j, k in enumerate(reversed(kinds)):
+            g = "%s%d" % (tag, j)
+            if k == "while":
+                body = [D(g, I(0)), ("while", ("bin", "<", V(g), I(2)), [D(g, ("bin", "+", V(g), I(1)))] + body)]
+            elif k == "if":
+                body = [("if", ("bin", ">", V("one"), I(0)), body, None)]
+            elif k == "else":
+                body = [("if", ("bin", "<", V("one"), I(0)), [("print", I(0 - 1))], body)]
+            else:
+                body = [("from", I(0), I(2), False, None, None, body)]
+        return body
+    maxd = 2 if tier == "quick" else 3
+    nests = [list(c) for d in range(1, maxd + 1) for c in itertools.product(KINDS, repeat=d)]
+    out = []
+    for inner in nests:
+        for exit_ in ("return", "break-then-return", "run-off"):
+            if exit_ == "return":
+                leave = [D("sq", ("bin", "*", V("lim"), I(3))), ("if", ("bin", ">", V("sq"), V("lim")), [("return", V("sq"))], None)]
+            elif exit_ == "break-then-return":
+                if not any(k in ("while", "from") for k in inner):
+                    continue
+                leave = [D("sq", ("bin", "*", V("lim"), I(3))), ("if", ("bin", ">", V("sq"), V("lim")), [("break",)], None)]
+            else:
+                leave = [D("sq", ("bin", "*", V("lim"), I(3)))]
+            fn_body = [D("one", I(1))] + wrap(inner, leave, "gi") + [("return", I(0))]
+            for outer in nests:
+                if exit_ != "return" and len(outer) != len(inner):
+                    continue
+                use = [("print", V("sq")), D("sq", ("bin", "+", V("sq"), I(1)))]
+                for where in ("module", "function"):
+                    tail = wrap(outer, use, "go") + [("print", V("sq"))]
+                    stmts = [D("one", I(1)), D("early", ("fn", [("lim", "int")], "int", fn_body)), D("sq", I(7)), ("print", ("call", V("early"), [I(20)]))]
+                    if where == "module":
+                        stmts += tail
+                    else:
+                        stmts += [D("later", ("fn", [], "int", [D("sq", I(40))] + tail + [("return", V("sq"))])), ("print", ("call", V("later"), [])), ("print", V("sq"))]
+                    out.append({"stmts": stmts, "labels": ["early-exit-same-name:%s:%d-deep:then-%d-deep:%s" % (exit_, len(inner), len(outer), where)], "nt": True})
+    return out
+
+
 def enumerated(tier, seed):
     from .. import skeletons
-    cases = naming_cases() + logic_literal_cases() + operand_order_cases() + function_variable_cases()
+    cases = naming_cases() + logic_literal_cases() + operand_order_cases() + function_variable_cases() + early_exit_same_name_cases(tier)
     for desc, stmts in skeletons.all_skeletons(2 if tier == "quick" else 3):
         labels = ["skel:loop=" + desc["loop"], "skel:exit=" + desc["exit"] + ("@%d" % len(desc["wraps"])),
                   "skel:" + ("fn" if desc["in_fn"] else "module")]
